@@ -118,7 +118,10 @@ func (a *vAdvSyncer) tamper(p *syncer.Proof) {
 		if symx.Bool("mutVersion") {
 			p.V = uint16(symx.Choose("advV", 3))
 		} else {
+			// any root other than the real one (claiming the real one is the unchanged case)
+			real := p.UntrustedRoot
 			copy(p.UntrustedRoot[:], symx.Bytes("advRoot", 32))
+			symx.Assume(p.UntrustedRoot != real)
 		}
 		symx.Cover("mut-root-version")
 	case 9: // truncate to a single empty-subtree claim
@@ -262,4 +265,40 @@ func VerifC04Iterate() {
 	}
 	symx.Assert(i == len(ref.ents), "remote iteration ended early without an error")
 	symx.Cover("iter-end")
+}
+
+// VerifC04Verify: the verifier API itself. A tampered proof that VerifyProof
+// accepts against the trusted root must reconstruct a subtree with exactly that
+// root hash (nil only for the empty tree) and carry only pairs of the tree.
+func VerifC04Verify() {
+	k := symx.Cfg("k", 2)
+	server, ref, root, d := vServerDB(k, k+1)
+	q := vOpKey("key", k, k+1)
+	rsp, err := server.SyncGet(vCtx, &syncer.GetRequest{
+		Tree:         syncer.TreeID{Root: root, Position: root.Hash},
+		Key:          q,
+		ProofVersion: uint16(symx.Choose("version", 2)),
+	})
+	symx.Assert(err == nil, "SyncGet failed on the honest tree")
+	adv := vNewAdv(server, d)
+	adv.honest = false
+	adv.tamper(&rsp.Proof)
+	var pv syncer.ProofVerifier
+	ptr, err := pv.VerifyProof(vCtx, root.Hash, &rsp.Proof)
+	if err != nil {
+		symx.Cover("rejected")
+		return
+	}
+	symx.Cover("accepted")
+	if ptr == nil {
+		symx.Assert(root.Hash.IsEmpty(), "proof accepted as an empty tree although the trusted root is not empty")
+	} else {
+		symx.Assert(ptr.Hash == root.Hash, "accepted proof reconstructs a different root")
+	}
+	wl, err := pv.VerifyProofToWriteLog(vCtx, root.Hash, &rsp.Proof)
+	symx.Assert(err == nil, "VerifyProofToWriteLog disagrees with VerifyProof")
+	for _, e := range wl {
+		v, ok := ref.get(e.Key)
+		symx.Assert(ok && bytes.Equal(v, e.Value), "accepted proof carries a pair that is not under the trusted root")
+	}
 }
